@@ -14,7 +14,7 @@ for f in sorted(os.listdir(os.path.join(root, 'seeded'))):
                 res[parts[0]] = (parts[1], parts[2], parts[3])
 rows = []
 caught_first = missed_first = caught_now = 0
-for s in sorted(hist, key=lambda x: (x.split('-')[0], {'a': 0, 'b': 1, 'c': 2, 'r2': 3, 'r3': 4, 'r4': 5, 'r5': 6, 'r6': 7, 'r7': 8, 'r8': 9, 'r9': 10}[x.split('-')[1]])):
+for s in sorted(hist, key=lambda x: (x.split('-')[0], {'a': 0, 'b': 1, 'c': 2, 'r2': 3, 'r3': 4, 'r4': 5, 'r5': 6, 'r6': 7, 'r7': 8, 'r8': 9, 'r9': 10, 'r10': 11}[x.split('-')[1]])):
     m = json.load(open(os.path.join(root, 'seeded', s, 'meta.json')))
     summ = re.sub(r'\s+', ' ', m.get('summary', '')).replace('|', '/')
     if len(summ) > 150:
@@ -37,7 +37,7 @@ for s in sorted(hist, key=lambda x: (x.split('-')[0], {'a': 0, 'b': 1, 'c': 2, '
         missed_first += 1
     rows.append(f"| {s} | {summ} | {h['first_attempt']} | {h['strengthening'] or '-'} | {now} |")
 out = []
-out.append(f"{len(hist)} seeded changes (nine rounds of fresh sub-agents that saw only the property text and a scratch worktree): "
+out.append(f"{len(hist)} seeded changes (ten rounds of fresh sub-agents that saw only the property text and a scratch worktree): "
            f"{caught_first} were reported by the checks as they stood when the change arrived, {missed_first} were not; "
            f"after strengthening, {caught_now} of {len(hist)} are reported by the current checks (quick tier, `tools/seedall`, `seeded/RESULTS*.txt`).\n")
 out.append("| seed | change (one line; full text, patch and demonstration in `seeded/<seed>/`) | first attempt | what was added to the check | current checks |")
